@@ -60,6 +60,9 @@ def check(cx):
                 if len(n['args']) < 2 or not (n['args'][1][0] == 'arg' and n['args'][1][1] == 2):
                     ok = False
                     msg = 'the forwarded value is not the incoming item'
+            if not outers:
+                ok = False
+                msg = 'a group created for a new key is never announced to the stream of groups'
             for n in outers:
                 if 'std::collections::hash_map::Entry::or_insert_with' not in g.vias(n):
                     ok = False
